@@ -150,7 +150,7 @@ def main():
         for f in fl:
             k = known(findings, prop, u.name, f['obligation'])
             if k:
-                kf_lines.append('KNOWN-FINDING: property=%s %s' % (prop, k['text']))
+                kf_lines.append('KNOWN-FINDING: %s' % k['text'])
             else:
                 unknown_fl.append(f)
         if unknown_fl:
